@@ -352,6 +352,7 @@ def judgeReq (js : JState) (b : Nat) (now : Int) (spec : String) (ops : List Op)
           if s != "ok" then fail "save: unexpected exception"
           -- (after a reload the first load may already have told the browser to drop its cookie: not this load's doing)
           else if !reloaded && jarTok != p then fail "untouched session but the session cookie changed"
+          else if !reloaded && !cookies.isEmpty then fail "untouched session (no renewal due) but cookies were sent"
           else (js, "1")
         | .saved ss fresh cookieAge =>
           if s != "ok" then fail "save: unexpected exception"
